@@ -7,6 +7,7 @@ import re
 
 from .. import harness
 from ..cbref.ast import render_tokens, join
+from ..gen import exprs as X
 from ..gen import progs, progtools
 
 PROPERTY = "C08"
@@ -72,7 +73,57 @@ def content_spans(lines):
     return spans
 
 
+REUSE_CONSTS = [("n", 1.0, ["1"]), ("n", -1.0, ["-", "1"]), ("n", 1000.0, ["1", "E", "3"]), ("n", -2.5, ["-", "2.5"]),
+                ("n", 4.0, ["+", "4"]), ("n", 0.5, [".5"]), ("n", 0.015, ["1.5", "E", "-", "2"]), ("n", 12.0, ["12"]),
+                ("n", -3.0, ["-", "3"]), ("h", 255, "FF"), ("n", 100.0, ["1", "E", "+", "2"]), ("n", 7.0, ["007"])]
+
+
+def _as_expr(item):
+    if item[0] == "h":
+        return ("hex", item[1], item[2])
+    pieces = list(item[2])
+    if pieces[0] in "+-":
+        return ("un", pieces[0], ("num", abs(item[1]), pieces[1:]))
+    return ("num", item[1], pieces)
+
+
+def reuse_program(rng):
+    """The same constants, spelled the same way, in DATA lists (with empty / string items around them) and in
+    ordinary statements: one occurrence must not depend on how another one is laid out."""
+    k = rng.randint(2, 4)
+    cs = [rng.choice(REUSE_CONSTS) for _ in range(k)]
+    items = list(cs)
+    for _ in range(rng.choice([0, 1, 1, 2])):
+        items.insert(rng.randint(0, len(items)), ("u", ""))
+    if rng.random() < 0.4:
+        items.insert(rng.randint(0, len(items)), rng.choice([("q", "A B"), ("u", "HI"), ("q", "")]))
+    targets = []
+    nv, sv = iter("ABCDEFGH"), iter(["A$", "B$", "C$", "D$", "E$"])
+    for it in items:
+        targets.append(("var", next(nv)) if it[0] in ("n", "h") and rng.random() < 0.8 else ("var", next(sv)))
+    e = [_as_expr(c) for c in cs]
+    pick = lambda: rng.choice(e)
+    blocks = [
+        [("data", items)],
+        [("read", targets)],
+        [("let", ("var", "X"), pick(), False), ("let", ("var", "Y"), ("bin", rng.choice("+-*"), ("var", "X"), pick()), False)],
+        [("if", ("bin", rng.choice(["=", "<", ">"]), ("var", "A"), pick()), ("stmts", [("print", [("e", pick()), ("sep", ";"), ("e", pick())], None)]), [],
+          None if rng.random() < 0.5 else ("stmts", [("let", ("var", "Z"), pick(), False)]))],
+        [("for", "I", pick(), pick(), pick() if rng.random() < 0.5 else None), ("next", ["I"])],
+        [("data", [rng.choice(cs) for _ in range(rng.randint(1, 3))])],
+        [("let", ("arr", "Q", [X.num(1)]), ("fn", "ABS", [pick()]), False)],
+    ]
+    order = list(range(len(blocks)))
+    rng.shuffle(order)
+    keep = sorted(order[:rng.randint(3, len(blocks))] + ([0] if 0 not in order[:3] else []))
+    if rng.random() < 0.5:
+        keep = keep[::-1] if rng.random() < 0.3 else keep
+    return [(10 * (i + 1), blocks[b]) for i, b in enumerate(dict.fromkeys(keep))]
+
+
 def get_program(case):
+    if case.get("reuse"):
+        return reuse_program(random.Random(case["seed"]))
     if case.get("prog"):
         return [(n, list(st)) for n, st in case["prog"]]
     rng = random.Random(case["seed"])
@@ -177,6 +228,10 @@ def cases(tier, seed):
     for i in range(n):
         yield {"mode": "family", "seed": seed * 3571 + i, "knobs": {"max_depth": 1 + i % 2}, "nlines": 2 + i % 5,
                "opts": [{}, {"initialize_vars": True}][i % 2], "sample": i % 100 == 0}
+    nr = 120 if tier == "quick" else 8000
+    for i in range(nr):
+        yield {"mode": "family" if i % 3 else "sweep", "reuse": True, "seed": seed * 6007 + i, "opts": [{}, {"initialize_vars": True}][i % 2],
+               "sample": i % 60 == 0}
     m = 150 if tier == "quick" else 6000
     for i in range(m):
         yield {"mode": "sweep", "seed": seed * 7919 + i, "knobs": {"max_depth": 1}, "nlines": 1 + i % 2, "opts": {}, "sample": i % 70 == 0}
